@@ -80,8 +80,8 @@ def refRender (X : Ext T S R) (r : R) (indent : Int) (scalar : Bool) : Option St
     | .error _ => none
 
 def expect (X : Ext T S R) (a : Argv) (w : World) : Expect :=
-  -- default spec format only: literal specs
-  if !(a.specFormat == none || a.specFormat == some "python") then .silent else
+  -- default spec format only: literal specs; --debug / --inspect print more than the result
+  if !(a.specFormat == none || a.specFormat == some "python") || a.debug || a.inspect then .silent else
   match refSpecText X a with
   | none => .silent
   | some st =>
@@ -119,12 +119,12 @@ def isExit0 : Outcome → Bool
   | .exit 0 _ => true
   | _ => false
 
-/-- The property evaluated on an observation.  `hostile` marks spec texts of the
-    attack corpus: they must not yield a result. -/
-def checkC19 (X : Ext T S R) (a : Argv) (w : World) (hostile : Bool) (obs : Obs) : Bool :=
+/-- The property evaluated on an observation, given what the reference expects.  `hostile` marks
+    spec texts of the attack corpus: they must not yield a result. -/
+def checkExpect (ex : Expect) (hostile : Bool) (obs : Obs) : Bool :=
   !obs.sideEffect &&
   (!hostile || !isExit0 obs.outcome) &&
-  (match expect X a w with
+  (match ex with
    | .result s => obs.outcome == .exit 0 s
    | .glomError c => (match obs.outcome with
        | .exit 1 out => (c ++ ": ").toList.isPrefixOf out.toList
@@ -132,6 +132,95 @@ def checkC19 (X : Ext T S R) (a : Argv) (w : World) (hostile : Bool) (obs : Obs)
    | .targetUsage => (match obs.outcome with | .usage _ => true | _ => false)
    | .noResult => !isExit0 obs.outcome
    | .silent => true)
+
+def checkC19 (X : Ext T S R) (a : Argv) (w : World) (hostile : Bool) (obs : Obs) : Bool :=
+  checkExpect (expect X a w) hostile obs
+
+/-! ### deliveries: every way of handing the same spec and target to the command -/
+
+inductive SpecVia where
+  | argv
+  | file (path : String)
+  deriving DecidableEq, Repr
+
+inductive TargetVia where
+  | argv
+  | file (path : String)
+  | dashArg            -- `glom SPEC -`
+  | dashFile           -- `--target-file -`
+  | piped              -- nothing given, stdin is not a tty
+  deriving DecidableEq, Repr
+
+/-- what the user wants done, apart from HOW spec and target are delivered -/
+structure Request where
+  specText : String
+  targetText : String
+  sv : SpecVia
+  tv : TargetVia
+  targetFormat : Option String
+  indent : Option Int
+  scalar : Bool
+  specFormat : Option String := none
+  debug : Bool := false
+  inspect : Bool := false
+  deriving DecidableEq, Repr
+
+def Request.argv (q : Request) : Argv :=
+  let sp := match q.sv with | .argv => q.specText | .file _ => ""
+  { posargs := (match q.tv with
+      | .argv => [sp, q.targetText]
+      | .dashArg => [sp, "-"]
+      | _ => (match q.sv with | .argv => [sp] | .file _ => []))
+    targetFile := (match q.tv with | .file p => some p | .dashFile => some "-" | _ => none)
+    targetFormat := q.targetFormat
+    specFile := (match q.sv with | .file p => some p | .argv => none)
+    specFormat := q.specFormat
+    indent := q.indent
+    scalar := q.scalar
+    debug := q.debug
+    inspect := q.inspect }
+
+/-- standard input carries the target when it is the chosen channel, anything otherwise -/
+def Request.world (q : Request) (junk : String) (tty : Bool) (stdinOpen : Bool := true) : World :=
+  match q.tv with
+  | .dashArg | .dashFile => ⟨q.targetText, tty, none, stdinOpen⟩
+  | .piped => ⟨q.targetText, false, none, stdinOpen⟩
+  | _ => ⟨junk, tty, none, stdinOpen⟩
+
+/-- the files hold the texts; file names are non-empty and not `-` (decidable form) -/
+def Request.filesOkB (q : Request) (X : Ext T S R) : Bool :=
+  (match q.sv with | .file p => !p.isEmpty && X.readFile p == some q.specText | .argv => true) &&
+  (match q.tv with | .file p => !p.isEmpty && p != "-" && X.readFile p == some q.targetText | _ => true)
+
+/-- the same request through another pair of channels -/
+def Request.via (q : Request) (sv : SpecVia) (tv : TargetVia) : Request := { q with sv := sv, tv := tv }
+
+/-- may the channels be compared: a non-empty target text that is not the word `-` (an empty
+    argument means "no target", `-` means standard input) and files that hold the texts -/
+def Request.comparable (q : Request) (X : Ext T S R) (vias : List (SpecVia × TargetVia)) : Bool :=
+  !q.targetText.isEmpty && q.targetText != "-" && vias.all (fun v => (q.via v.1 v.2).filesOkB X)
+
+/-- what an observer sees of an outcome (a usage error shows no kind) -/
+def Outcome.seen : Outcome → Outcome
+  | .usage _ => .usage .specBoth
+  | .cli _ => .cli .emptyArgv
+  | o => o
+
+/-- **Channel equivalence**, the observation: the same spec text and target text, delivered
+    through each pair of channels, gave these outcomes — they are all the same. -/
+def channelsAgree (outs : List Outcome) : Bool :=
+  match outs with
+  | [] => true
+  | o :: rest => rest.all (fun o' => o'.seen == o.seen)
+
+/-- the property on a request delivered through several pairs of channels: it holds of every
+    delivery by itself, and — when the deliveries are comparable — all outcomes are the same -/
+def checkChannels (X : Ext T S R) (q : Request) (vias : List (SpecVia × TargetVia)) (junk : String)
+    (tty : Bool) (hostile : Bool) (obs : List Obs) : Bool :=
+  obs.length == vias.length &&
+  (vias.zip obs).all (fun vo =>
+    checkC19 X (q.via vo.1.1 vo.1.2).argv ((q.via vo.1.1 vo.1.2).world junk tty) hostile vo.2) &&
+  (!q.comparable X vias || channelsAgree (obs.map (·.outcome)))
 
 /-! ### well-formedness of the extracted facts -/
 
@@ -169,7 +258,10 @@ def WF (F : Facts) : Bool :=
 /-- the hand-modelled control flow of `glom_cli`, `main`, `mw_handle_target` and the order of
     `mw_get_target`'s steps is the one in the source -/
 def shapeWF (cliShape : List String) (mainShape : String) (mwSteps : List String) (emptyFirst : Bool)
-    (middlewares : List String) : Bool :=
+    (middlewares : List String) (debugBody : List String) : Bool :=
+  -- `--debug / --inspect`: the spec is wrapped, the debugger hooks armed only while stdin is open
+  debugBody == ["stdin_open = not sys.stdin.closed",
+    "spec = Inspect(spec, echo=inspect, recursive=inspect, breakpoint=inspect and stdin_open, post_mortem=debug and stdin_open)"] &&
   cliShape == ["debug-inspect", "glom-or-print-class-colon-message-return-1", "indent-0-none",
                "scalar-str-else-dumps-sorted", "return-none"] &&
   mainShape == "cmd = get_command() ; return cmd.run(argv) or 0" &&
@@ -191,6 +283,34 @@ def probeWF (raises : List (String × String × List String))
   raises.all (fun r => r.2.2.head? == some r.2.1 && r.2.2.contains "Exception") &&
   ["spec-file", "target-file", "stdin"].all (fun k => readSites.any (·.1 == k)) &&
   readSites.all (fun s => ["spec-file", "target-file", "stdin"].contains s.1 && readCatchWF s.2.2)
+
+/-- **What is read is what is loaded**: between the read of a text (standard input, the target
+    file, the spec file, the positional arguments) and the loader / parser that receives it
+    nothing is done to it — no call, no method, no slice (`cliTextTransforms` lists every value
+    assigned to a text variable, or returned by a text-delivering function, that is not a plain
+    source; `open()` calls with more than the file name among them) — and every sink receives
+    the bare variable. -/
+def textFlowWF (transforms sinks : List (String × String × String)) : Bool :=
+  transforms.isEmpty &&
+  sinks.all (fun s => ["spec_text", "target_text", "target_text, target_format"].contains s.2.2) &&
+  sinks.any (fun s => s.2.1 == "load_func" && s.2.2 == "target_text") &&
+  sinks.any (fun s => s.1 == "mw_get_target" && s.2.1 == "mw_handle_target") &&
+  sinks.any (fun s => s.2.1 == "ast.literal_eval" && s.2.2 == "spec_text")
+
+/-- is this use of a flag value a plain truth test (no call, no attribute, no subscript)? -/
+def plainTest (u : String) : Bool :=
+  "test: ".toList.isPrefixOf u.toList && !(u.toList.any (fun c => c == '(' || c == '.' || c == '['))
+
+/-- **The spec file's NAME and the spec format's SPELLING decide nothing else**: the file name is
+    only opened, truth-tested and quoted in a message (no extension test); the format is only
+    compared for equality with the three documented names (no case folding, no prefix test). -/
+def specNameWF (uses : List (String × String × String)) : Bool :=
+  uses.all (fun u =>
+    if u.2.1 == "spec_file" then u.2.2 == "message" || u.2.2 == "open(spec_file)" || plainTest u.2.2
+    else u.2.2 == "message" ||
+      ["spec_format == 'json'", "spec_format == 'python'", "spec_format == 'python-full'"].contains u.2.2) &&
+  uses.any (fun u => u.2.2 == "open(spec_file)") &&
+  uses.any (fun u => u.2.2 == "spec_format == 'python-full'")
 
 def entryPoints : List String :=
   ["main", "console_main", "get_command", "glom_cli", "mw_get_target", "mw_handle_target", "<module>"]
